@@ -362,7 +362,7 @@ class Call:
     def eval_new_data_offset(self, data_mask):
         if self._intermediate_data.kind == "constant":
             # Return value passed as the argument
-            result = np.ones(len(data_mask.index)) * self.call.args[0].value
+            result = np.ones(len(data_mask.index)) * self.call.args[0].eval(data_mask, self.env)
         else:
             # This works both for LazyVariable (offset(x)) and LazyCall (offset(np.log(x)))
             offset = self.call.eval(data_mask, self.env)  # returns instance of Offset
